@@ -159,7 +159,10 @@ static volatile sig_atomic_t g_crash_sig = 0;
 static long                  g_contained = 0;
 static void on_signal(int sig)
 {
-    if (g_in_exec && g_contained < 2000)
+    static volatile sig_atomic_t hangs = 0;
+    if (sig == SIGALRM)
+        hangs++;
+    if (g_in_exec && g_contained < 2000 && hangs <= 5)
     {
         g_in_exec   = 0;
         g_crash_sig = sig;
@@ -263,7 +266,7 @@ struct Engine
         g_cur_hist = hist;
         if (op)
             g_cur_hist.push_back(*op);
-        alarm(60);
+        alarm(10);
         g_now_ns        = BASE_NS;
         ValStats before = g_vs;
         if (containment())
